@@ -2,6 +2,7 @@ package work
 
 import (
 	"bytes"
+	"crypto/sha512"
 	"fmt"
 
 	"github.com/oasisprotocol/curve25519-voi/curve"
@@ -54,6 +55,9 @@ var (
 	c15altered   = core.RegCounter("c15.altered_tuples_evaluated")
 	c15kat       = core.RegCounter("c15.rfc9381_known_answer_runs")
 	c15panicSkip = core.RegCounter("c15.cases_skipped_because_the_library_panicked")
+	c15companion = core.RegCounter("c15.other_provers_tuple_read_into_the_receive_buffer_first")
+	c15rxReuse   = core.RegCounter("c15.deliveries_through_one_reused_receive_buffer")
+	c15bigAlpha  = core.RegCounter("c15.runs_with_input_strings_around_2^16_bytes")
 )
 
 // Fault kinds of the corrupting wire, in a fixed order (counters are registered
@@ -144,6 +148,11 @@ type c15Run struct {
 	// outputs exactly as returned (not copied) next to a private copy taken at once: callers keep
 	// outputs; a later call must not change one that was handed out earlier
 	kept [][2][]byte
+	// a verifier's receive buffer: with useRx every delivered (key, proof, input) is copied into the SAME
+	// backing array before the call, as a server reading requests into one buffer does; what an earlier
+	// request left there (and whatever the library remembered about it) must not show in a later decision
+	useRx bool
+	rx    []byte
 }
 
 func (c *c15Run) keep(b []byte) {
@@ -159,6 +168,28 @@ func (c *c15Run) checkKept() {
 			return
 		}
 	}
+}
+
+// c15companion is an honest (key, input, proofs in both formats) of another prover, made once per worker.
+var c15comp *struct {
+	pk, alpha []byte
+	pi        [2][]byte
+}
+
+func c15GetCompanion() *struct {
+	pk, alpha []byte
+	pi        [2][]byte
+} {
+	if c15comp == nil {
+		seed := sha512.Sum512_256([]byte("c15 companion"))
+		k := ed25519.NewKeyFromSeed(seed[:])
+		a := []byte("another prover on the same connection")
+		c15comp = &struct {
+			pk, alpha []byte
+			pi        [2][]byte
+		}{clone(k[32:]), a, [2][]byte{ecvrf.Prove(k, a), ecvrf.Prove_v10(k, a)}}
+	}
+	return c15comp
 }
 
 func c15fmtName(v10 bool) string {
@@ -195,6 +226,42 @@ func c15firstDiff(a, b []byte) string {
 // evaluated is false when the library panicked (left to C19).
 func (c *c15Run) deliver(label string, v10 bool, pk, pi, alpha []byte) (accepted, evaluated bool) {
 	r := c.r
+	if c.useRx {
+		need := len(pk) + len(pi) + len(alpha)
+		if cap(c.rx) < need {
+			c.rx = make([]byte, need+64)
+		}
+		place := func(off int, b []byte) []byte {
+			if b == nil {
+				return nil
+			}
+			return c.rx[off : off+copy(c.rx[off:], b)]
+		}
+		if c.t.W(3) == 0 {
+			// the buffer's previous request: another prover's honest tuple
+			cp := c15GetCompanion()
+			cpi := cp.pi[b2i(v10)]
+			need2 := len(cp.pk) + len(cpi) + len(cp.alpha)
+			if cap(c.rx) < need2 {
+				c.rx = make([]byte, need2+need+64)
+			}
+			var cok bool
+			cpan, _ := Guard(func() {
+				a, b, d := place(0, cp.pk), place(len(cp.pk), cpi), place(len(cp.pk)+len(cpi), cp.alpha)
+				if v10 {
+					cok, _ = ecvrf.Verify_v10(a, b, d)
+				} else {
+					cok, _ = ecvrf.Verify(a, b, d)
+				}
+			})
+			r.Count(c15companion)
+			if (cpan || !cok) && len(r.Main.Fails()) == 0 {
+				r.Fail("completeness", "other-prover-rejected", "before %s: another prover's honest tuple, read into the verifier's receive buffer after earlier requests, was rejected by %s", label, c15fmtName(v10))
+			}
+		}
+		pk, pi, alpha = place(0, pk), place(len(pk), pi), place(len(pk)+len(pi), alpha)
+		r.Count(c15rxReuse)
+	}
 	var ok bool
 	var beta []byte
 	pan, pmsg := Guard(func() {
@@ -316,7 +383,14 @@ func runC15(e *Env, r *core.Run) {
 	// both slices have spare capacity, as a key read from a file or cut out of a packet has.  A prover
 	// that appends to its arguments overwrites the input that follows the key (later verification
 	// against the caller's input then fails: completeness) and in any case changes the buffer.
-	pg := NewPackedGuarded(c.g.EdKey(), c.g.Msg())
+	c.useRx = t.W(2) == 1
+	alpha0 := c.g.Msg()
+	if t.W(24) == 0 {
+		// input strings around 2^16: ECVRF hashes pk || alpha, h2c frames lengths in 16 bits elsewhere
+		alpha0 = c.g.Bytes([]int{65471, 65472, 65503, 65504, 65535, 65536, 70000, 131072}[t.W(8)])
+		r.Count(c15bigAlpha)
+	}
+	pg := NewPackedGuarded(c.g.EdKey(), alpha0)
 	c.sk = ed25519.PrivateKey(pg.Part(0))
 	c.pk = clone(c.sk[32:])
 	c.alpha = pg.Part(1)
